@@ -13,14 +13,19 @@ Tier == IF "VERIF_TIER" \in DOMAIN IOEnv THEN IOEnv.VERIF_TIER ELSE "quick"
 Op(o, d, a, b, s, l) == [op |-> o, d |-> d, a |-> a, b |-> b, s |-> s, l |-> l]
 Scal == IF Tier = "quick" THEN {"1", "2", "r-1", "2^64", "lam", "rnd1"}
         ELSE {"0", "1", "2", "3", "r-1", "r-2", "h", "2^64", "2^128", "2^252", "2^64-1", "2^63", "2^128-1", "2^192-1", "lam", "lam+1", "lam-1", "-lam", "rnd1", "rnd2"}
-Prog(a, rep, s) ==
-  << Op("spt", 1, a, 0, rep, <<>>), Op("id", 2, 0, 0, "", <<>>),
+ProgFrom(first, s) ==
+  << first, Op("id", 2, 0, 0, "", <<>>),
      Op("smul", 3, 1, 0, s, <<>>), Op("double", 4, 1, 0, "", <<>>), Op("neg", 5, 1, 0, "", <<>>),
      Op("add", 4, 1, 1, "", <<>>), Op("add", 4, 1, 2, "", <<>>), Op("add", 4, 2, 1, "", <<>>), Op("add", 4, 1, 5, "", <<>>), Op("sub", 4, 1, 1, "", <<>>),
      Op("addmixed", 4, 3, 1, "", <<>>), Op("encdec", 4, 1, 0, "", <<>>), Op("encdecu", 4, 1, 0, "", <<>>),
      Op("bbytes", 0, 0, 0, "", <<1, 5, 1, 3>>), Op("bmap", 0, 0, 0, "", <<5, 1, 2>>), Op("bunc", 0, 0, 0, "", <<1, 2, 5>>), Op("bnorm", 0, 0, 0, "", <<1, 3, 1>>),
      Op("smul", 1, 1, 0, s, <<>>) >>
+Prog(a, rep, s) == ProgFrom(Op("spt", 1, a, 0, rep, <<>>), s)
 Progs == {[ops |-> Prog(a, rep, s)] : a \in 0 .. 5, rep \in {"norm", "flip", "proj", "projflip"}, s \in Scal}
+         \* elements built from the y side: every single-bit position of the dyadic discrete log of y (decompression takes the root of y^2),
+         \* and y at the boundary of the sign choice
+         \cup {[ops |-> ProgFrom(Op("ypt", 1, i, 0, "ydyad", <<>>), "2")] : i \in 0 .. (IF Tier = "quick" THEN 31 ELSE 63)}
+         \cup {[ops |-> ProgFrom(Op("ypt", 1, i, 0, c, <<>>), "r-1")] : i \in 0 .. 5, c \in {"yhalf", "ypat", "yhalf192"}}
 VARIABLE done
 Init == done = FALSE
 Next == ~done /\ done' = ndJsonSerialize(Out, SetToSeq(Progs))
